@@ -53,3 +53,17 @@ pub struct VPackRef { pub to_do: PackToDo, pub size: u32, pub blobs: Vec<VBlobRe
 pub struct VPlan2 { pub used_ids: UsedIds }
 
 pub fn vunreachable() requires false, {}
+
+// ---- PrunePlan::check: every used blob was found in some index file (count != 0) ----
+pub struct VCountMap { pub m: Ghost<Map<u64, u8>> }
+impl VCountMap {
+    pub closed spec fn view(&self) -> Map<u64, u8> { self.m@ }
+    // iteration over &BTreeMap<BlobId, u8>: its entries
+    #[verifier::external_body]
+    pub fn ventries(&self) -> (r: Vec<(BlobId, u8)>)
+        ensures
+            forall|k: u64| self@.dom().contains(k) ==> exists|i: int| 0 <= i < r@.len() && (#[trigger] r@[i]).0._opaque == k,
+            forall|i: int| 0 <= i < r@.len() ==> self@.dom().contains((#[trigger] r@[i]).0._opaque) && self@[r@[i].0._opaque] == r@[i].1,
+    { unimplemented!() }
+}
+pub struct VPlan3 { pub used_ids: VCountMap }
